@@ -100,6 +100,19 @@ Definition lstat (t : tree) (name : bytes) : lres :=
        | cs => walk t [] cs
        end.
 
+(* a listing of a real directory tree: clean absolute paths below the root, no path twice,
+   every parent listed as a directory *)
+Fixpoint path_count (t : tree) (p : bytes) : nat :=
+  match t with [] => O | e :: r => ((if beq (te_path e) p then 1 else 0) + path_count r p)%nat end.
+Definition tentry_ok (t : tree) (e : tentry) : bool :=
+  let p := te_path e in
+  beq (clean p) p && is_abs p && negb (beq p [c_slash]) && negb (has_dotdot p)
+  && (path_count t p =? 1)%nat
+  && ((te_kind e =? 1) || (te_kind e =? 2) || (te_kind e =? 3))
+  && (let d := pathdir p in
+      beq d [c_slash] || match tfind t d with Some pe => te_kind pe =? 1 | None => false end).
+Definition tree_ok (t : tree) : bool := forallb (tentry_ok t) t.
+
 (* ------------------------------------------------------------------ filepath.Match / Glob *)
 Inductive gtok := GStar | GLit (c : ascii).
 Inductive gpat := GBad | GOod | GPat (p : list gtok).
